@@ -50,7 +50,7 @@ var impWants = []impWant{
 			"argmax", "traceAlignmentStepsLocal", "Local"}},
 	{dir: "formats/fasta", pkg: "fasta", funcs: []string{"Fasta.Write"}, join: true},
 	{dir: "formats/fastq", pkg: "fastq", funcs: []string{"Fastq.Write"}, join: true},
-	{dir: "formats/bed", pkg: "bed", funcs: []string{"BED.Write"}, join: true},
+	{dir: "formats/bed", pkg: "bed", funcs: []string{"BED.Write", "parseLine"}, join: true},
 	{dir: "formats/newick", pkg: "newick", funcs: []string{"quoted", "nameFromText", "nameToText"}},
 }
 
@@ -225,6 +225,8 @@ func (t *impTr) zero(ty types.Type) string {
 		}
 	case *types.Slice, *types.Map:
 		return "[]"
+	case *types.Pointer:
+		return t.zero(u.Elem()) // a nil *T result is the zero T (only returned next to an error)
 	case *types.Array:
 		if u.Len() == 2 {
 			return "(" + t.zero(u.Elem()) + ", " + t.zero(u.Elem()) + ")"
@@ -503,13 +505,11 @@ func (t *impTr) binary(e *ast.BinaryExpr, pre *[]opener) string {
 		}
 		// short circuit: the right operand is evaluated (and may panic) only when needed
 		v, kk := t.fresh(), t.fresh()
-		short := "false"
-		cond := a
+		comb := "go_andalso"
 		if e.Op == token.LOR {
-			short = "true"
-			cond = "(negb " + a + ")"
+			comb = "go_orelse"
 		}
-		*pre = append(*pre, opener{fmt.Sprintf("(fun %s => if %s then %s else %s %s) (fun %s => ", kk, cond, wrapOpeners(preB, kk+" "+b), kk, short, v), ")"})
+		*pre = append(*pre, opener{fmt.Sprintf("%s %s (fun %s => %s) (fun %s => ", comb, a, kk, wrapOpeners(preB, kk+" "+b), v), ")"})
 		return v
 	}
 	// comparison with nil
@@ -568,8 +568,13 @@ func (t *impTr) binop(n ast.Node, op token.Token, a, b string, lt, rt types.Type
 		t.fail(n, "operator %s on bool", op)
 	}
 	if bt.Info()&types.IsString != 0 {
-		if op == token.ADD {
+		switch op {
+		case token.ADD:
 			return fmt.Sprintf("(%s ++ %s)", a, b)
+		case token.EQL:
+			return fmt.Sprintf("(beqb %s %s)", a, b)
+		case token.NEQ:
+			return fmt.Sprintf("(negb (beqb %s %s))", a, b)
 		}
 		t.fail(n, "operator %s on strings", op)
 	}
@@ -725,6 +730,12 @@ func (t *impTr) call(e *ast.CallExpr, pre *[]opener) string {
 			return "true"
 		case "strings.ContainsAny":
 			return fmt.Sprintf("(go_contains_any %s %s)", t.ex(e.Args[0], pre), t.ex(e.Args[1], pre))
+		case "strings.Split":
+			sep, ok := t.info.Types[e.Args[1]]
+			if !ok || sep.Value == nil || len(constant.StringVal(sep.Value)) != 1 {
+				t.fail(e, "strings.Split with a separator that is not a one-byte constant")
+			}
+			return fmt.Sprintf("(split_on %d%%N %s)", constant.StringVal(sep.Value)[0], t.ex(e.Args[0], pre))
 		case "strings.ReplaceAll":
 			return fmt.Sprintf("(go_replace_all %s %s %s)", t.ex(e.Args[0], pre), t.ex(e.Args[1], pre), t.ex(e.Args[2], pre))
 		case "fmt.Fprintf":
@@ -1065,8 +1076,8 @@ func (t *impTr) block(list []ast.Stmt, k string, lc *loopCtx) string {
 	case *ast.ReturnStmt:
 		var vals []string
 		for i, r := range s.Results {
-			if id, ok := r.(*ast.Ident); ok && id.Name == "nil" && t.results != nil && i < t.results.Len() && isError(t.results.At(i).Type()) {
-				vals = append(vals, "false")
+			if id, ok := r.(*ast.Ident); ok && id.Name == "nil" && t.results != nil && i < t.results.Len() {
+				vals = append(vals, t.zero(t.results.At(i).Type()))
 				continue
 			}
 			vals = append(vals, t.ex(r, &pre))
@@ -1242,6 +1253,27 @@ func (t *impTr) assign(s *ast.AssignStmt, pre *[]opener) {
 		call, ok := s.Rhs[0].(*ast.CallExpr)
 		if !ok {
 			t.fail(s, "unsupported multi-value assignment")
+		}
+		if o := t.calleeObj(call.Fun); o != nil && o.Pkg() != nil && len(s.Lhs) == 2 {
+			lib := ""
+			switch o.Pkg().Path() + "." + o.Name() {
+			case "strconv.Atoi":
+				lib = "go_atoi " + t.ex(call.Args[0], pre)
+			case "strconv.ParseUint":
+				b, bok := t.info.Types[call.Args[1]]
+				w, wok := t.info.Types[call.Args[2]]
+				if !bok || !wok || b.Value == nil || w.Value == nil || b.Value.ExactString() != "0" || w.Value.ExactString() != "8" {
+					t.fail(s, "strconv.ParseUint with a base / size other than 0, 8")
+				}
+				lib = "go_parse_uint_0_8 " + t.ex(call.Args[0], pre)
+			}
+			if lib != "" {
+				v, e := t.fresh(), t.fresh()
+				*pre = append(*pre, opener{fmt.Sprintf("let '(%s, %s) := %s in ", v, e, lib), ""})
+				t.store(s.Lhs[0], v, pre)
+				t.store(s.Lhs[1], e, pre)
+				return
+			}
 		}
 		if o := t.calleeObj(call.Fun); o != nil && o.Pkg() != nil && o.Pkg().Path() == "fmt" && o.Name() == "Fprintf" {
 			if id, ok := s.Lhs[0].(*ast.Ident); !ok || id.Name != "_" || len(s.Lhs) != 2 {
@@ -1611,7 +1643,7 @@ func genImp(repo, out string) {
 	defer os.Chdir(cwd)
 	sb := &strings.Builder{}
 	sb.WriteString("(* GENERATED by `harness gen-imp` from the Go source in /repo. Do not edit. *)\n")
-	sb.WriteString("From Coq Require Import ZArith NArith Bool List.\nImport ListNotations.\nFrom Bio Require Import Base.\nFrom Bio.Model Require Import GoSem GoGlobals.\n\n")
+	sb.WriteString("From Coq Require Import ZArith NArith Bool List.\nImport ListNotations.\nFrom Bio Require Import Base.\nFrom Bio.Model Require Import GoSem GoGlobals GoLib.\n\n")
 	for _, want := range impWants {
 		fset := token.NewFileSet()
 		pkgs, err := parser.ParseDir(fset, repo+"/"+want.dir, func(fi os.FileInfo) bool { return !strings.HasSuffix(fi.Name(), "_test.go") }, 0)
